@@ -14,10 +14,27 @@ gc_arena::static_collect!(Token);
 pub struct DropEv {
     pub id: u32,
     pub ctx: u32,
+    /// the destructor was made to panic (fault injection) right after logging this event
+    pub panicked: bool,
 }
 
 thread_local! {
     static LOG: RefCell<Vec<DropEv>> = const { RefCell::new(Vec::new()) };
+    /// destructor fault plan: the k-th token destructor from now panics (0 = none)
+    static DPLAN: std::cell::Cell<u32> = const { std::cell::Cell::new(0) };
+}
+
+pub const DESTRUCTOR_PANIC: &str = "VERIF-INJECTED destructor panic";
+
+/// Arm the destructor fault plan: the `k`-th token destructor that runs from now on panics (after
+/// logging its run), unless the thread is already unwinding.
+pub fn arm_destructor_panic(k: u32) {
+    DPLAN.with(|p| p.set(k));
+}
+
+/// Disarm; returns true when the plan was still pending (did not fire).
+pub fn disarm_destructor_panic() -> bool {
+    DPLAN.with(|p| p.replace(0)) != 0
 }
 
 impl Token {
@@ -28,8 +45,16 @@ impl Token {
 
 impl Drop for Token {
     fn drop(&mut self) {
-        let ev = DropEv { id: self.id, ctx: track::ctx() };
+        let k = DPLAN.with(|p| p.get());
+        let fire = k == 1 && !std::thread::panicking();
+        if k > 0 && (k > 1 || fire) {
+            DPLAN.with(|p| p.set(k - 1));
+        }
+        let ev = DropEv { id: self.id, ctx: track::ctx(), panicked: fire };
         LOG.with(|l| l.borrow_mut().push(ev));
+        if fire {
+            panic!("{}", DESTRUCTOR_PANIC);
+        }
     }
 }
 
